@@ -78,20 +78,25 @@ func walkDisjunctionRefs(d ast.DisjunctionType, where, mappingKind string, cb fu
 	for i, b := range d.Branches {
 		walkTypeRefs(b, fmt.Sprintf("%s|%d", where, i), cb, depth+1)
 	}
-	// mapping targets name objects of the package of the branches (same package as the refs)
-	pkg := ""
+	// mapping targets are bare type names: they are looked up in the packages of the branch
+	// references and in the package holding the disjunction (encoded as a |-separated list).
+	pkgs := map[string]bool{}
+	if i := strings.Index(where, "."); i > 0 {
+		pkgs[where[:i]] = true
+	} else if i := strings.Index(where, "#"); i > 0 {
+		pkgs[where[:i]] = true
+	}
 	for _, b := range d.Branches {
 		if b.Kind == ast.KindRef && b.Ref != nil {
-			pkg = b.Ref.ReferredPkg
-			break
+			pkgs[b.Ref.ReferredPkg] = true
 		}
 	}
 	for _, k := range sortedKeys(d.DiscriminatorMapping) {
 		target := d.DiscriminatorMapping[k]
-		if target == "" || k == ast.DiscriminatorCatchAll && target == "" {
+		if target == "" {
 			continue
 		}
-		cb(refPos{mappingKind, where + "~" + k, pkg, target})
+		cb(refPos{mappingKind, where + "~" + k, strings.Join(sortedKeys(pkgs), "|"), target})
 	}
 }
 
@@ -139,10 +144,19 @@ func hasPackage(schemas ast.Schemas, pkg string) bool {
 func danglingRefs(schemas ast.Schemas) []refPos {
 	var out []refPos
 	schemaRefs(schemas, func(p refPos) {
-		if p.Pkg == "" || !hasPackage(schemas, p.Pkg) {
+		if p.Pkg == "" {
 			return
 		}
-		if !hasObject(schemas, p.Pkg, p.Target) {
+		anyLoaded, resolved := false, false
+		for _, pkg := range strings.Split(p.Pkg, "|") {
+			if hasPackage(schemas, pkg) {
+				anyLoaded = true
+				if hasObject(schemas, pkg, p.Target) {
+					resolved = true
+				}
+			}
+		}
+		if anyLoaded && !resolved {
 			out = append(out, p)
 		}
 	})
@@ -152,7 +166,7 @@ func danglingRefs(schemas ast.Schemas) []refPos {
 func refsIntoUnloadedPackages(schemas ast.Schemas) bool {
 	bad := false
 	schemaRefs(schemas, func(p refPos) {
-		if p.Pkg != "" && !hasPackage(schemas, p.Pkg) {
+		if p.Pkg != "" && !strings.Contains(p.Pkg, "|") && !hasPackage(schemas, p.Pkg) {
 			bad = true
 		}
 	})
@@ -185,7 +199,9 @@ func refClosure(schemas ast.Schemas, pkg string, roots []string) map[string]bool
 		}
 		seen[cur] = true
 		walkTypeRefs(obj.Type, cur, func(p refPos) {
-			queue = append(queue, p.Pkg+"."+p.Target)
+			for _, pkg := range strings.Split(p.Pkg, "|") {
+				queue = append(queue, pkg+"."+p.Target)
+			}
 		}, 0)
 	}
 	return seen
